@@ -481,10 +481,20 @@ def genGenerics (cfg : GCfg) : Gen (Generics × GCtx) := do
     (1, [.trait false [] (.path false [.mk "Tr2" [.ty Ty.selfTy]])]),
     (1, [.trait false ["'x"] (.path false [.mk "Tr3" [.lt "'x"]])])]
   let tdef ← pickW [(5, (none : Option Ty)), (1, some (Ty.simple "u8"))]
+  -- bounds and defaults on every kind of parameter; a second lifetime; `Self` inside a bound or a default
+  let tb ← if ← chance 1 10 then (do pure (tb ++ [.trait false [] (.path false [.mk "Tr2" [.ty (← genComposedSelf)]])])) else pure tb
+  let ltb ← pickW [(5, ([] : List String)), (1, ["'static"])]
+  let lt2 ← chance 1 6
+  let ub ← pickW [(5, ([] : List TBound)), (1, [.trait false [] (Ty.simple "Tr")]), (1, [.trait true [] (Ty.simple "Sized"), .trait false [] (Ty.simple "Tr")])]
+  let udef ← if hasN then pure none else pickW [(5, (none : Option Ty)), (1, some (Ty.app "Vec" [Ty.selfTy])), (1, some tyT)]
+  let nty ← pickW [(5, Ty.simple "usize"), (1, Ty.simple "u8"), (1, Ty.simple "bool")]
+  let ndef ← pickW [(5, (none : Option Toks)), (1, some ["3"]), (1, some ["{", "1", "+", "2", "}"])]
+  let constFirst ← chance 1 6
+  let tys : List GParam := [.ty "T" tb (if hasU || hasN then none else tdef)] ++ (if hasU then [.ty "U" ub udef] else [])
+  let cs : List GParam := if hasN then [.const_ "N" nty ndef] else []
   let ps : List GParam :=
-    (if hasLt then [.lt "'a" []] else []) ++ [.ty "T" tb (if hasU || hasN then none else tdef)] ++
-    (if hasU then [.ty "U" [] none] else []) ++
-    (if hasN then [.const_ "N" (Ty.simple "usize") none] else [])
+    (if hasLt then [.lt "'a" ltb] ++ (if lt2 then [.lt "'b" ["'a"]] else []) else []) ++
+    (if constFirst then cs ++ tys else tys ++ cs)
   let wh ← pickW [
     (5, ([] : List WPred)),
     (2, [.ty [] tyT [.trait false [] (Ty.simple "W1")]]),
